@@ -149,15 +149,16 @@ func runShard(lane laneSpec, job proto.Job, maxCrashes int) shardResult {
 		if gotS && werr == nil {
 			return res
 		}
+		code := -1
+		if ee, ok := werr.(*exec.ExitError); ok {
+			code = ee.ExitCode()
+		}
+		if code == 2 && strings.Contains(errTail.String(), "HARNESS:") {
+			// harness trouble (also inside a case: e.g. starved for ten minutes on a saturated machine): never a violation
+			res.harness = append(res.harness, "worker: "+lastLines(errTail.String(), 3))
+			return res
+		}
 		if !open || lastB < 0 {
-			code := -1
-			if ee, ok := werr.(*exec.ExitError); ok {
-				code = ee.ExitCode()
-			}
-			if code == 2 && strings.Contains(errTail.String(), "HARNESS:") {
-				res.harness = append(res.harness, "worker: "+lastLines(errTail.String(), 3))
-				return res
-			}
 			res.harness = append(res.harness, fmt.Sprintf("worker died outside a case (exit %d): %s", code, lastLines(errTail.String(), 12)))
 			return res
 		}
@@ -262,6 +263,9 @@ func (s *server) call(rq *proto.Request) (rs proto.Response, died string, stderr
 			if strings.Contains(s.err.String(), "reader operation budget exceeded twice") {
 				special = "reader-no-progress-loop"
 			}
+			if strings.Contains(s.err.String(), "HARNESS:") {
+				special = "harness" // e.g. starved on a saturated machine: inconclusive, never a violation
+			}
 			return rs, special, s.err.String()
 		}
 	}
@@ -285,6 +289,9 @@ func (j *judgeClient) do(rq *proto.Request) (proto.Response, string, string) {
 	rs, died, se := j.srv.call(rq)
 	if died != "" {
 		j.srv = nil
+	}
+	if died == "harness" {
+		return proto.Response{Err: "harness trouble in the worker: " + lastLines(se, 2)}, "", ""
 	}
 	return rs, died, se
 }
